@@ -40,6 +40,8 @@ func runC16(c *Ctx) {
 	c.Rule("R16.6", "E2", "the store's in-memory tokens are never edited in place by callers", 3)
 	c.Rule("R16.7", "E3", "the version tag is derived from the mirrored size and time alone (or everything else it reads is reset with them)", 1)
 	defer runC16Tag(c)
+	c.Rule("R16.8", "E3", "load() accepts only the end of the file as the end of the tokens", 1)
+	defer runC16LoadStrict(c)
 
 	// ---- R16.1 ----
 	la := NewLockAnalysis(p)
@@ -493,4 +495,108 @@ func derefType(t types.Type) types.Type {
 		return pt.Elem()
 	}
 	return t
+}
+
+// R16.8: add() appends one line to the file on the assumption that memory
+// mirrors it after load().  load() must therefore fail closed on anything but a
+// clean end of file: after a Decode that returned an error other than io.EOF,
+// every path resets the state (and no path goes on decoding or returns the
+// entries read so far as the file's contents).
+func runC16LoadStrict(c *Ctx) {
+	p := c.P
+	ld := p.Func("token", "state", "load")
+	if ld == nil {
+		c.Unknown("R16.8", "anchors", 0, "token.(*state).load not found")
+		return
+	}
+	info := ld.Pkg.TypesInfo
+	ff := p.Facts().Analyze(ld)
+	var dec *ast.CallExpr
+	var decStmt ast.Node
+	ast.Inspect(ld.Body(), func(n ast.Node) bool {
+		if as, ok := n.(*ast.AssignStmt); ok && len(as.Rhs) == 1 {
+			if call, ok := unparen(as.Rhs[0]).(*ast.CallExpr); ok {
+				if f := calleeOf(&CallSite{Call: call, In: ld}); f != nil && f.Name() == "Decode" && f.Pkg() != nil && f.Pkg().Path() == "encoding/json" {
+					dec, decStmt = call, as
+				}
+			}
+		}
+		return true
+	})
+	if dec == nil {
+		c.Bad("R16.8", "load fails closed on a damaged file", ld.Pos(), "no `err := decoder.Decode(...)` statement found in load")
+		return
+	}
+	r := &Term{K: 'r', Name: "res0", Pos: dec.Lparen}
+	outcome := func(st *State) string {
+		if st == nil {
+			return ""
+		}
+		inClass := func(t *Term) bool { return t.String() == r.String() || st.EqualUnder(t, r) }
+		for _, f := range st.Facts() {
+			if f.A == nil {
+				continue
+			}
+			if f.Op == "eq" && f.Pos && f.B != nil {
+				for _, pr := range [][2]*Term{{f.A, f.B}, {f.B, f.A}} {
+					if !inClass(pr[0]) {
+						continue
+					}
+					if pr[1].K == 'n' {
+						return "nil"
+					}
+					if pr[1].K == 'v' && pr[1].Obj != nil && pr[1].Obj.Name() == "EOF" && pr[1].Obj.Pkg() != nil && pr[1].Obj.Pkg().Path() == "io" {
+						return "eof"
+					}
+				}
+			}
+			if f.Op == "true" && f.Pos && f.A.K == 'k' && strings.HasSuffix(f.A.Name, "errors.Is") && len(f.A.Args) == 2 && inClass(f.A.Args[0]) {
+				if a := f.A.Args[1]; a.K == 'v' && a.Obj != nil && a.Obj.Name() == "EOF" && a.Obj.Pkg() != nil && a.Obj.Pkg().Path() == "io" {
+					return "eof"
+				}
+			}
+		}
+		return ""
+	}
+	resets := func(n ast.Node) bool {
+		hit := false
+		ast.Inspect(n, func(m ast.Node) bool {
+			if call, ok := m.(*ast.CallExpr); ok && fnIs(calleeOf(&CallSite{Call: call, In: ld}), "token", "state", "reset") {
+				hit = true
+			}
+			return true
+		})
+		return hit
+	}
+	again := token.NoPos
+	pos, found := ff.PathSearchPSX(decStmt, 1, func(n ast.Node, st *State, flag int) (int, bool) {
+		if flag == 1 {
+			switch outcome(st) {
+			case "nil":
+				flag = 0
+			case "eof":
+				flag = 2
+			}
+		}
+		if flag == 1 && resets(n) {
+			flag = 3
+		}
+		if n == decStmt {
+			if flag == 1 {
+				again = n.Pos()
+			}
+			return flag, true // the next iteration starts afresh
+		}
+		return flag, false
+	}, nil, func(flag int, _ *State) bool { return flag == 1 })
+	_ = info
+	if again.IsValid() {
+		found, pos = true, again
+	}
+	at := dec.Pos()
+	if found && pos.IsValid() {
+		at = pos
+	}
+	c.Check(!found, "R16.8", "load fails closed on a damaged file", at, "after a Decode error other than io.EOF every path calls state.reset()",
+		"load() can carry on (or return the entries read so far as the contents of the file) after a Decode error that is not io.EOF: the next creation appends its line to the damaged tail, the running server honours a token that a restarted server cannot read")
 }
